@@ -410,8 +410,9 @@ Theorem handler_side_panic_sites_accounted :
   sites_ok gen_handler_side_sites = true /\
   strs_subset gen_handler_side_functions handler_side_functions_model = true /\
   forallb first_pre_is_service gen_routes = true /\
-  importers_ok gen_unmarshal_importers = true.      (* nothing but controller/ can call into package unmarshal *)
-Proof. vm_compute. split; [|split; [|split]]; reflexivity. Qed.
+  importers_ok gen_unmarshal_importers = true /\     (* nothing but controller/ can call into package unmarshal *)
+  ctx_contract_ok gen_ctx_writes gen_ctx_asserted_reads = true.   (* asserted context keys and all their writers *)
+Proof. vm_compute. split; [|split; [|split; [|split]]]; reflexivity. Qed.
 Print Assumptions handler_side_panic_sites_accounted.
 
 Theorem handler_side_sites_meaning : forall f fn k e, In (f, fn, k, e) gen_handler_side_sites ->
